@@ -326,7 +326,7 @@ def main(argv):
     if a.replay:
         import replay
         return replay.replay(a.replay, a.repo)
-    units = [dict(u, _for_property=prop) for u in cfg["unit"] if u["property"] == prop or prop in u.get("also", [])]
+    units = [dict(u, _for_property=prop, _no_witness=a.no_witness) for u in cfg["unit"] if u["property"] == prop or prop in u.get("also", [])]
     if a.tier == "quick":
         units = [u for u in units if u.get("tier", "quick") == "quick"]
     if a.unit:
@@ -374,8 +374,7 @@ def main(argv):
             if k:
                 known_hits.append((k, ob))
                 continue
-            wit = {"found": False, "note": "witness search skipped"} if a.no_witness else (
-                r.get("witness") or run_witness(u, a.repo, bdir))
+            wit = r.get("witness") or ({"found": False, "note": "witness search skipped"} if a.no_witness else run_witness(u, a.repo, bdir))
             rp = os.path.join(out_root, "replay/out", f"{prop}-{r['unit']}-{ob['name'].split('::')[-1]}.json")
             json.dump({"property": prop, "unit": r["unit"], "obligation": ob["name"], "engine": r["engine"],
                        "sites": finding_site(r, ob),
